@@ -21,7 +21,7 @@ import ast
 
 from sa.astutil import ordn
 
-from sa import AnalysisError
+from sa import AnalysisError, ShapeNotRecognised
 from sa.astutil import unparse, parents, in_block, enclosing
 from sa.cfg import build_cfg, EXC, is_exc_label
 from sa.consts import fold, NotConst, module_env
@@ -399,6 +399,14 @@ def _consumer_loops(p):
         lp = fi.params()[1]
         loops = _loop_over_file(fi, fparam)
         if not loops:
+            # the loop may have moved into a generator / helper that this function drives
+            r_ = get_resolver(p)
+            moved = [f.qual for q2, f in sorted(r_.closure([fi]).items()) if f is not fi and not isinstance(f.node, ast.Lambda) and any(
+                isinstance(x, ast.For) and any(isinstance(n_, ast.Name) and n_.id in f.params() and "file" in n_.id for n_ in ast.walk(x.iter))
+                for x in walk_shallow(f.node))]
+            if moved:
+                raise ShapeNotRecognised("the loop over the lines of the section is no longer in %s itself but in %s: the per-line "
+                                         "clauses are not decided across that structure" % (q, ", ".join(moved)))
             raise AnalysisError("no loop over the file object in %s" % q)
         loop, counter, linevar, direct, start = loops[0]
         out.append((fi, loop, role, counter, linevar, direct, start, {"%s[1]" % lp}, {"%s[0]" % lp}))
@@ -542,6 +550,7 @@ def rule_end_test(ctx):
         if tests and cv:
             # increments of the counter inside the loop
             incs = []
+            derived_counter = False
             if counter is None:
                 for node in cfg.nodes:
                     a = node.ast
@@ -555,6 +564,20 @@ def rule_end_test(ctx):
                         else:
                             l = _lin(a.value, lambda n: None)
                             step = l.get(1, 0) if l is not None and l.get(cv) == 1 else None
+                            # `line_no = first + i + 1` with i the enumerate() index of this loop (counting from 0): one step per
+                            # line by construction; its value for the first line must be first+1
+                            ivar = loop.target.elts[0].id if (isinstance(loop.target, ast.Tuple) and isinstance(loop.iter, ast.Call)
+                                                              and isinstance(loop.iter.func, ast.Name) and loop.iter.func.id == "enumerate"
+                                                              and len(loop.iter.args) == 1 and not loop.iter.keywords
+                                                              and isinstance(loop.target.elts[0], ast.Name)) else None
+                            l2 = _lin(a.value, lambda n: defs.get(n) if n != ivar else None)
+                            if ivar and l2 is not None and l2.get(ivar) == 1 and cv not in l2:
+                                derived_counter = True
+                                rest_ = {k: v for k, v in l2.items() if k != ivar}
+                                if rest_ not in [{f: 1, 1: 1} for f in firsts]:
+                                    problems.append("the line counter is %s for the first data line; the first data line has index "
+                                                    "first+1" % _fmt_lin(rest_))
+                                continue
                         if step != 1:
                             problems.append("the line counter advances by %s per line" % step)
                 if not incs:
@@ -611,7 +634,7 @@ def rule_end_test(ctx):
                 want = [{f: 1, 1: 1} for f in firsts]
                 if l not in want:
                     problems.append("enumerate() starts at %s; the first data line has index first+1" % _fmt_lin(l))
-            elif counter is None and cv:
+            elif counter is None and cv and not derived_counter:
                 init = None
                 for sub in walk_shallow(fi.node):
                     if (isinstance(sub, ast.Assign) and any(isinstance(t, ast.Name) and t.id == cv for t in sub.targets)
@@ -642,8 +665,11 @@ def _takes_title_branch(cfg, pth, title_guard):
 
 
 def _is_title_test(node, linevar):
-    return any(isinstance(c, ast.Call) and isinstance(c.func, ast.Attribute) and c.func.attr == "startswith"
-               and c.args and isinstance(c.args[0], ast.Constant) and c.args[0].value == "~" for c in ast.walk(node))
+    """`<line>.startswith('~')`, or the same test written with a title regex constant (`<..TITLE..>.match(<line>)`; that the
+    constant means "white space, then ~" is SEC.TITLE-PRED's business)"""
+    return any(isinstance(c, ast.Call) and isinstance(c.func, ast.Attribute) and ((c.func.attr == "startswith"
+               and c.args and isinstance(c.args[0], ast.Constant) and c.args[0].value == "~") or (
+               c.func.attr == "match" and c.args and "TITLE" in ast.unparse(c.func.value).upper())) for c in ast.walk(node))
 
 
 def _title_guard_nodes(cfg, loop, linevar):
@@ -962,12 +988,47 @@ def rule_steer(ctx):
     ctx.floor("SEC.STEER", 4)
 
 
+def _title_regex_ok(p, fi, c):
+    """`<R>.match(<line>)` with R a module constant whose language, as a prefix test, is exactly "optional white space, then ~":
+    the same set of lines as <stripped line>.startswith('~').  Returns True / False / None (not a regex title test)"""
+    if not (isinstance(c, ast.Call) and isinstance(c.func, ast.Attribute) and c.func.attr in ("match", "search", "fullmatch", "findall") and c.args):
+        return None
+    from sa.consts import Regex
+    from sa import rx
+    try:
+        if isinstance(c.func.value, ast.Name) and c.func.value.id == "re":
+            pat = fold(c.args[0], module_env(p, fi.module.name))
+            pat = Regex(pat, 0) if isinstance(pat, str) else pat
+        else:
+            pat = fold(c.func.value, module_env(p, fi.module.name))
+    except NotConst:
+        return None
+    if not isinstance(pat, Regex) or "~" not in pat.pattern:
+        return None
+    if c.func.attr != "match":
+        return False
+    try:
+        a, b = rx.DFA("(?:%s).*" % pat.pattern, pat.flags), rx.DFA(r"\s*~.*")
+        return bool(rx.included(a, b)[0] and rx.included(b, a)[0])
+    except Exception:  # noqa - unsupported construct: not decided here
+        return None
+
+
 def rule_title_pred(ctx):
     p = ctx.p
     targets = [p.func("reader.find_sections_in_file"), p.func("reader.parse_header_items_section")] + [
         f for f in read_family(p) if f.cls is not None]
     targets += [f for q, f in sorted(p.functions.items()) if f.module.name == "las" and f.cls is None and f.parent is None
                 and not isinstance(f.node, ast.Lambda)]
+    # helpers that today's tree does not have and that the scanner / header loop drive (a generator holding the line loop ...)
+    from sa.normalize import _reference
+    ref = _reference()
+    r_ = get_resolver(p)
+    new_helpers = {}
+    for q in ("reader.find_sections_in_file", "reader.parse_header_items_section"):
+        new_helpers[q] = [f for q2, f in sorted(r_.closure([p.func(q)]).items()) if q2 not in ref and not isinstance(f.node, ast.Lambda)
+                          and f.module.name == "reader"]
+        targets += [f for f in new_helpers[q] if f not in targets]
     n = 0
     for fi in targets:
         cfg = build_cfg(p, fi)
@@ -976,6 +1037,15 @@ def rule_title_pred(ctx):
             if node.ast is None or node.kind not in ("test", "stmt"):
                 continue
             for c in walk_expr_shallow(node.ast):
+                tv_ = _title_regex_ok(p, fi, c) if node.kind == "test" else None
+                if tv_ is not None:
+                    n += 1
+                    ctx.check(tv_, "SEC.TITLE-PRED", "%s#title-test(%s)" % (fi.qual, ast.unparse(c)[:40]), fi, c,
+                              "title test `%s`: optional white space then '~', the same lines as <stripped>.startswith('~')" % unparse(c),
+                              "`%s` does not recognise exactly the lines whose first non-blank character is '~' (search() finds a tilde "
+                              "anywhere in the line; another pattern selects other lines): a junk line is taken for a section title, or "
+                              "a title is missed" % unparse(c))
+                    continue
                 if (isinstance(c, ast.Call) and isinstance(c.func, ast.Attribute) and c.func.attr == "startswith"
                         and c.args and isinstance(c.args[0], ast.Constant) and c.args[0].value == "~"):
                     n += 1
@@ -991,15 +1061,21 @@ def rule_title_pred(ctx):
     # expression, a character class after the '~') recognises a different set of lines than the readers stop on
     for q in ("reader.find_sections_in_file", "reader.parse_header_items_section"):
         fi = p.func(q)
+        scope = [fi] + new_helpers.get(q, [])
         has_sw = any(isinstance(c, ast.Call) and isinstance(c.func, ast.Attribute) and c.func.attr == "startswith" and c.args
-                     and isinstance(c.args[0], ast.Constant) and c.args[0].value == "~" for c in walk_shallow(fi.node))
+                     and isinstance(c.args[0], ast.Constant) and c.args[0].value == "~" for f_ in scope for c in walk_shallow(f_.node))
         other = []
-        for sub in walk_shallow(fi.node):
+        for f_ in scope:
+          for sub in walk_shallow(f_.node):
             if isinstance(sub, (ast.If, ast.While, ast.IfExp)):
                 for c in ast.walk(sub.test):
                     if isinstance(c, ast.Call) and isinstance(c.func, ast.Attribute) and c.func.attr in ("match", "search", "fullmatch", "findall"):
+                        verdict = _title_regex_ok(p, f_, c)
+                        if verdict is True:
+                            has_sw = True       # the same set of title lines, written as a regular expression
+                            continue
                         txt = ast.unparse(c)
-                        if "~" in txt or "TITLE" in txt.upper() or "SECTION" in txt.upper():
+                        if verdict is False or "~" in txt or "TITLE" in txt.upper() or "SECTION" in txt.upper():
                             other.append(c)
                     if isinstance(c, ast.Compare) and any(isinstance(k, ast.Constant) and k.value == "~" for k in [c.left] + c.comparators) \
                             and not (len(c.ops) == 1 and isinstance(c.ops[0], ast.Eq) and isinstance(c.left, ast.Subscript)
@@ -1036,6 +1112,8 @@ def _fully_stripped(expr, cfg, rd, at, depth=0, _seen=None):
         _seen = set()
     if depth > 25:
         return False
+    if isinstance(expr, ast.Constant) and isinstance(expr.value, str) and expr.value == expr.value.strip():
+        return True       # a literal without surrounding blanks (typically "")
     if isinstance(expr, ast.Call) and isinstance(expr.func, ast.Attribute):
         a = expr.func.attr
         if a == "strip" and (not expr.args or (isinstance(expr.args[0], ast.Constant) and expr.args[0].value is None)):
@@ -1649,6 +1727,25 @@ def rule_content_only_effects(ctx):
                     txts.append((ast.unparse(a), pol))
             has_comment = any(any(cp in tx for cp in cparams) and "startswith" in tx for tx, pol in txts)
             has_blank = any(("len(%s)" % linevar in tx) or tx in (linevar, "not %s" % linevar) for tx, pol in txts)
+            if has_blank and not has_comment:
+                # "comment lines come back empty": under the comment test the line (or a value copied into it) is set to "",
+                # so the blank test skips comment lines as well
+                blanked = set()
+                for n2 in cfg.nodes:
+                    a2 = n2.ast
+                    if n2.kind == "stmt" and isinstance(a2, ast.Assign) and in_block(a2, loop.body) and isinstance(a2.value, ast.Constant) \
+                            and a2.value.value == "" and len(a2.targets) == 1 and isinstance(a2.targets[0], ast.Name):
+                        under = [(cfg.nodes[tn].ast, lab) for (tn, lab) in cd.transitive(n2.id) if cfg.nodes[tn].kind == "test"]
+                        if any(lab.startswith("true") and "startswith" in ast.unparse(t_) and any(cp in ast.unparse(t_) for cp in cparams)
+                               and not ast.unparse(t_).startswith("not ") for t_, lab in under):
+                            blanked.add(a2.targets[0].id)
+                for _ in range(3):
+                    for a2 in ast.walk(loop):
+                        if isinstance(a2, ast.Assign) and len(a2.targets) == 1 and isinstance(a2.targets[0], ast.Name) \
+                                and isinstance(a2.value, ast.Name) and a2.value.id in blanked:
+                            blanked.add(a2.targets[0].id)
+                if linevar in blanked:
+                    has_comment = True
             if not (has_comment and has_blank):
                 problems.append("`%s` is executed for %s lines too: inserting such lines changes the result (e.g. the "
                                 "hyphen census decides whether the run-on substitutions are dropped)" % (
